@@ -50,6 +50,9 @@ pub struct State {
   pub cut: BTreeSet<(u32, u32)>,
   /// nodes whose background threads are not scheduled (stalled / crashed)
   pub stalled: BTreeSet<u32>,
+  /// targeted loss: every datagram that carries a DATA / DATAFRAG of a user writer with one of these
+  /// sequence numbers is lost (first transmission and repairs alike) while faults are on
+  pub lose_sns: BTreeSet<i64>,
   pub scripted: BTreeSet<u32>,
   pub scripted_inbox: Vec<(u64, u32, SocketAddr, Vec<u8>)>,
   pub violation: Option<Violation>,
@@ -92,6 +95,7 @@ pub fn enter(ctx: &mut Ctx) {
     faults_on: false,
     cut: BTreeSet::new(),
     stalled: BTreeSet::new(),
+    lose_sns: BTreeSet::new(),
     scripted: BTreeSet::new(),
     scripted_inbox: vec![],
     violation: None,
@@ -274,6 +278,21 @@ fn deliver(seq: u64) {
           st.ctx.count("fault.partition_drop");
           st.last_fault_at = simcore::now_ns();
           return true;
+        }
+        if !st.lose_sns.is_empty() {
+          if let Ok((m, _)) = crate::wire::decode_msg(&f.bytes) {
+            let hit = m.subs.iter().any(|s| match s {
+              crate::wire::Sub::Data { writer, sn, .. } | crate::wire::Sub::DataFrag { writer, sn, .. } => {
+                (writer[3] == 0x02 || writer[3] == 0x03) && st.lose_sns.contains(sn)
+              }
+              _ => false,
+            });
+            if hit {
+              st.ctx.count("fault.targeted_sample_loss");
+              st.last_fault_at = simcore::now_ns();
+              return true;
+            }
+          }
         }
         if st.ctx.ch.chance(st.net.drop_pct, 100) {
           st.ctx.count("fault.drop");
